@@ -6,6 +6,7 @@ set -u
 patch="$1"; shift
 props="$*"
 [ -z "$props" ] && props=$(jq -r '.checks[].property_id' /verif/MANIFEST.json)
+mkdir -p /tmp/trymut_ev/evidence; cp /verif/known_findings.json /tmp/trymut_ev/
 cd /repo
 if ! git apply --check "$patch" 2>/dev/null; then echo "PATCH DOES NOT APPLY: $patch"; exit 2; fi
 git apply "$patch"
